@@ -59,6 +59,10 @@ func wgOf(v ssa.Value) ssa.Value {
 				return wgOf(g.Call.Args[idx])
 			}
 		}
+		// a helper with one call site (the launcher of the goroutine): what that site passes
+		if sites := staticCallsOf(body); len(sites) == 1 && idx >= 0 && idx < len(sites[0].Call.Args) && len(goStatementsOf(body)) == 0 {
+			return wgOf(sites[0].Call.Args[idx])
+		}
 	}
 	if fv, ok := v.(*ssa.FreeVar); ok {
 		fn := fv.Parent()
@@ -218,7 +222,23 @@ func checkWaitGroupFanout(c *core.Ctx, r *core.Report, rule string, g *ssa.Go, c
 			waits = append(waits, ci)
 		}
 	}
-	loop := core.InnermostLoop(parent, g.Block())
+	var at ssa.Instruction = g
+	if core.InnermostLoop(parent, g.Block()) == nil {
+		if site := launcherSite(c, g); site != nil {
+			// the loop calls a helper that starts the goroutine: the call stands for the go statement
+			at, parent = site, site.Parent()
+			adds, waits = nil, nil
+			for _, ci := range core.Calls(parent) {
+				if core.IsExtCall(ci.Common(), "(*sync.WaitGroup).Add") && wgOf(ci.Common().Args[0]) == wg {
+					adds = append(adds, ci)
+				}
+				if core.IsExtCall(ci.Common(), "(*sync.WaitGroup).Wait") && wgOf(ci.Common().Args[0]) == wg {
+					waits = append(waits, ci)
+				}
+			}
+		}
+	}
+	loop := core.InnermostLoop(parent, at.Block())
 	if loop == nil {
 		r.Undecided(rule+".R1", cons+":add", pos, "go statement is not inside a loop")
 		return body, false
@@ -239,11 +259,11 @@ func checkWaitGroupFanout(c *core.Ctx, r *core.Report, rule string, g *ssa.Go, c
 			}
 		}
 	}
-	rl := core.RangeLoopOf(parent, g.Block())
+	rl := core.RangeLoopOf(parent, at.Block())
 	okAdd := false
 	detail := ""
 	for _, a := range adds {
-		if !core.Dominates(a, g) {
+		if !core.Dominates(a, at) {
 			continue
 		}
 		n := a.Common().Args[1]
@@ -262,7 +282,7 @@ func checkWaitGroupFanout(c *core.Ctx, r *core.Report, rule string, g *ssa.Go, c
 			if bi, isB := ln.Common().Value.(*ssa.Builtin); isB && bi.Name() == "len" {
 				if rl != nil && core.Equiv(ln.Common().Args[0], rl.Slice) {
 					okAdd, detail = true, "Add(len(S)) before a forward range over the same S"
-				} else if ml := mapRangeOf(g.Block()); ml != nil && core.Equiv(ln.Common().Args[0], ml.X) {
+				} else if ml := mapRangeOf(at.Block()); ml != nil && core.Equiv(ln.Common().Args[0], ml.X) {
 					okAdd, detail = true, "Add(len(M)) before a range over the same map M"
 				}
 			}
@@ -271,12 +291,15 @@ func checkWaitGroupFanout(c *core.Ctx, r *core.Report, rule string, g *ssa.Go, c
 	r.Check(okAdd, rule+".R1", cons+":add", pos, "the WaitGroup counter is raised by exactly the number of goroutines started: "+detail)
 	// exactly one go per iteration on every path through the body: the go block post-dominates the loop body entry
 	bodyEntry := loopBodyEntry(loop)
-	oneGo := bodyEntry != nil && (g.Block() == bodyEntry || c.PostDom(parent).PostDominates(g.Block(), bodyEntry)) && core.InnermostLoop(parent, g.Block()) == loop
+	oneGo := bodyEntry != nil && (at.Block() == bodyEntry || c.PostDom(parent).PostDominates(at.Block(), bodyEntry)) && core.InnermostLoop(parent, at.Block()) == loop
 	nGo := 0
 	for b := range loop.Blocks {
 		for _, in := range b.Instrs {
 			if gg, isGo := in.(*ssa.Go); isGo && wgSameBody(gg, body) {
 				nGo++
+			}
+			if in == at && at != ssa.Instruction(g) {
+				nGo++ // the launcher call
 			}
 		}
 	}
@@ -435,6 +458,34 @@ func c14(c *core.Ctx, r *core.Report) {
 	r.Check(!core.InLoop(site.Block()) && c.PostDom(fn).PostDominates(site.Block(), fn.Blocks[0]), "C14.R2", cons+":close-once", c.Pos(site.Pos()), "Close is invoked exactly once on every path through the goroutine body")
 	// the argument passed is the current element
 	rl := core.RangeLoopOf(parent, g.Block())
+	var atBlock = g.Block()
+	elemArg := func(idx int) ssa.Value {
+		if idx >= 0 && idx < len(g.Call.Args) {
+			return core.Norm(g.Call.Args[idx])
+		}
+		return nil
+	}
+	if rl == nil {
+		if site := launcherSite(c, g); site != nil {
+			// the loop calls a helper that starts the goroutine with its own parameter: follow it to the call
+			parent, atBlock = site.Parent(), site.Block()
+			rl = core.RangeLoopOf(parent, atBlock)
+			launcher := g.Parent()
+			inner := elemArg
+			elemArg = func(idx int) ssa.Value {
+				p, ok := inner(idx).(*ssa.Parameter)
+				if !ok {
+					return nil
+				}
+				for i, q := range launcher.Params {
+					if q == p && i < len(site.Call.Args) {
+						return core.Norm(site.Call.Args[i])
+					}
+				}
+				return nil
+			}
+		}
+	}
 	if rl != nil && isParam {
 		idx := -1
 		for i, p := range fn.Params {
@@ -442,7 +493,7 @@ func c14(c *core.Ctx, r *core.Report) {
 				idx = i
 			}
 		}
-		okArg := idx >= 0 && idx < len(g.Call.Args) && rl.ElemOf(core.Norm(g.Call.Args[idx]))
+		okArg := elemArg(idx) != nil && rl.ElemOf(elemArg(idx))
 		r.Check(okArg, "C14.R2", cons+":element-passed", c.Pos(g.Pos()), "the goroutine receives the current element of the ranged closer slice")
 		c14Field(c, r, rl.Slice)
 	} else if rl == nil {
@@ -451,7 +502,7 @@ func c14(c *core.Ctx, r *core.Report) {
 	// R6: nothing but "there are no closers" lets Close skip the fan-out
 	if rl != nil {
 		extra := ""
-		for _, cd := range c.ControlDeps(g.Block()) {
+		for _, cd := range c.ControlDeps(atBlock) {
 			if cd.If.Block() == rl.Header {
 				continue
 			}
@@ -527,6 +578,82 @@ func goBodyOf(g *ssa.Go) *ssa.Function {
 }
 
 var goIndex sync.Map // *ssa.Program -> []*ssa.Go
+
+var callIndex sync.Map // *ssa.Program -> map[*ssa.Function][]*ssa.Call (plain static calls in scope)
+
+// staticCallsOf lists the plain (not go / defer) static calls of fn anywhere in the program's in-scope packages.
+func staticCallsOf(fn *ssa.Function) []*ssa.Call {
+	prog := fn.Prog
+	var idx map[*ssa.Function][]*ssa.Call
+	if v, ok := callIndex.Load(prog); ok {
+		idx = v.(map[*ssa.Function][]*ssa.Call)
+	} else {
+		idx = map[*ssa.Function][]*ssa.Call{}
+		var visit func(f *ssa.Function)
+		visit = func(f *ssa.Function) {
+			for _, b := range f.Blocks {
+				for _, in := range b.Instrs {
+					if call, ok := in.(*ssa.Call); ok {
+						if cal := call.Common().StaticCallee(); cal != nil {
+							if o := cal.Origin(); o != nil {
+								cal = o
+							}
+							idx[cal] = append(idx[cal], call)
+						}
+					}
+				}
+			}
+			for _, a := range f.AnonFuncs {
+				visit(a)
+			}
+		}
+		for _, p := range prog.AllPackages() {
+			if !core.InScopePath(p.Pkg.Path()) {
+				continue
+			}
+			for _, m := range p.Members {
+				switch x := m.(type) {
+				case *ssa.Function:
+					visit(x)
+				case *ssa.Type:
+					if n, isN := x.Type().(*types.Named); isN {
+						for i := 0; i < n.NumMethods(); i++ {
+							if f := prog.FuncValue(n.Method(i)); f != nil {
+								visit(f)
+							}
+						}
+					}
+				}
+			}
+		}
+		callIndex.Store(prog, idx)
+	}
+	return idx[fn]
+}
+
+// launcherSite: the go statement g is the one thing an unexported helper does on every call (it is not in a loop
+// there and post-dominates the helper's entry), and the helper has exactly one plain call site: that call site stands
+// for the go statement (the loop body was moved into a helper that starts the goroutine).
+func launcherSite(c *core.Ctx, g *ssa.Go) *ssa.Call {
+	h := g.Parent()
+	if h == nil || h.Parent() != nil || h.Object() == nil || h.Object().Exported() || len(c.FuncValueUses(h)) != 0 {
+		return nil
+	}
+	if core.InnermostLoop(h, g.Block()) != nil || !(g.Block() == h.Blocks[0] || c.PostDom(h).PostDominates(g.Block(), h.Blocks[0])) {
+		return nil
+	}
+	n := 0
+	for _, in := range core.Calls(h) {
+		if _, isGo := in.(*ssa.Go); isGo {
+			n++
+		}
+	}
+	sites := staticCallsOf(h)
+	if n != 1 || len(sites) != 1 {
+		return nil
+	}
+	return sites[0]
+}
 
 // goStatementsOf lists the go statements (anywhere in the program's packages) that run body.
 func goStatementsOf(body *ssa.Function) []*ssa.Go {
